@@ -243,7 +243,7 @@ func resolveCacheFields(P *Prog) (size, limit, count, sizeOf, onEvict *types.Var
 		return
 	}
 	var i64 []*types.Var
-	for _, f := range structFields(ct) {
+	for _, f := range P.FieldsDeep("cache", "Cache") {
 		switch t := f.Type().Underlying().(type) {
 		case *types.Signature:
 			if t.Results().Len() == 1 {
@@ -265,16 +265,18 @@ func resolveCacheFields(P *Prog) (size, limit, count, sizeOf, onEvict *types.Var
 	}
 	// limit: never stored outside the constructor's fresh allocation
 	stored := map[*types.Var]bool{}
-	for _, fn := range P.Methods("cache", "Cache") {
-		allInstrs(fn, func(in ssa.Instruction) {
-			if st, ok := in.(*ssa.Store); ok {
-				if fa, ok := st.Addr.(*ssa.FieldAddr); ok {
-					if _, f := fieldVarOf(fa); f != nil {
-						stored[f.Origin()] = true
+	for _, top := range P.Methods("cache", "Cache") {
+		for _, fn := range withClosures(top) {
+			allInstrs(fn, func(in ssa.Instruction) {
+				if st, ok := in.(*ssa.Store); ok {
+					if fa, ok := st.Addr.(*ssa.FieldAddr); ok {
+						if _, f := fieldVarOf(fa); f != nil {
+							stored[f.Origin()] = true
+						}
 					}
 				}
-			}
-		})
+			})
+		}
 	}
 	for _, f := range i64 {
 		if stored[f.Origin()] {
